@@ -1123,7 +1123,7 @@ func commitKey(db *leveldb.DB, batch *leveldb.Batch, key []byte, startTS, commit
 		// another transaction, check commit information of this transaction.
 		c, ok, err1 := getTxnCommitInfo(iter, key, startTS)
 		if err1 != nil {
-			return err
+			return err1
 		}
 		if ok && c.valueType != typeRollback {
 			// c.valueType != typeRollback means the transaction is already committed, do nothing.
